@@ -31,6 +31,8 @@ pub enum E {
     Tup(Vec<E>),
     Struct(Vec<(String, E)>),
     Mut(Option<Ty>, Box<E>),
+    /// `mut e` with the cell type inferred from the static type of `e` (carried here for the reference)
+    MutInf(Ty, Box<E>),
     Lambda(Vec<(String, Ty)>, Ty, Vec<S>),
     Mod(Vec<S>),
     /// effect marker: appends `k` to the log, then yields the value of the inner expression,
@@ -307,6 +309,12 @@ impl Printer {
                     let _ = write!(self.out, "{} ", t.text());
                 }
                 self.operand(a);
+            }
+            E::MutInf(_, a) => {
+                // `mut [..` would be read as a type: parenthesised
+                self.out.push_str("mut (");
+                self.expr(a);
+                self.out.push(')');
             }
             E::Lambda(params, ret, body) => {
                 self.out.push('(');
